@@ -23,3 +23,19 @@ void h_core_upditem(void) {
     VG_REACH(upditem_returns);
     if (vg_nwrites > 0 && vg_hoff == vg_ip_pos) { VG_REACH(upditem_rewrote_witness_header); }
 }
+
+void h_core_sigvalid(void) {
+    struct jls_core_s * c = vg_mk_core();
+    uint16_t id;
+    int32_t rc = jls_core_signal_validate(c, id);
+    VG_REACH(sigvalid_returns);
+    if (rc == 0 && id == 200) { VG_REACH(sigvalid_ok); }
+    if (rc != 0 && id < 256) { VG_REACH(sigvalid_undefined); }
+}
+void h_core_sigvalid_typed(void) {
+    struct jls_core_s * c = vg_mk_core();
+    uint16_t id; enum jls_signal_type_e t;
+    int32_t rc = jls_core_signal_validate_typed(c, id, t);
+    VG_REACH(sigvalid_typed_returns);
+    if (rc == 0) { VG_REACH(sigvalid_typed_ok); }
+}
